@@ -7,7 +7,8 @@ import Tsv.Gen.Steps
 import Mathlib.Tactic.Ring
 
 namespace C02
-variable {K : Type} [Field K]
+set_option linter.unusedSectionVars false
+variable {K : Type} [Field K] [LinearOrder K]
 
 /-- Euler–Maruyama, every noise type at d = m = 1. -/
 theorem euler_step_eq (f g : K → K → K) (ga : K → K) (t0 t1 y0 dW : K) :
